@@ -171,11 +171,56 @@ def rule_markall(ctx):
   R = "R-C08-MARKALL"
   repo = ctx.repo
   f = repo.func(ES, "_IssuerDLogs")
-  loops = [x for x in ast.walk(f.node) if isinstance(x, ast.For)]
-  exits = any(isinstance(x, (ast.Break, ast.Return, ast.Continue)) for lp in loops for x in ast.walk(lp))
-  inner = [x for x in loops if ast.unparse(x.iter) == "pks[guess_pk]"]
-  ok = not exits and len(inner) == 1
-  ctx.record(R, f.where, "every signature index of the verified issuer is assigned", ok, "for idx in pks[guess_pk]: no exit" if ok else "not every signature of the issuer receives the key")
+  w = sym.Walker(repo, f)
+  w.run()
+  guesses, pks = [P("param", x) for x in f.params()[:2]]
+  probs = []
+  outer = [i for i in w.loop_info.values() if not isinstance(i["iter"], Seq) and i["iter"] is not None and "BatchMultiplyG" in repr(as_poly(i["iter"]))
+           and not (as_poly(i["iter"]).as_atom() is not None and as_poly(i["iter"]).as_atom().kind == "idx" and as_poly(as_poly(i["iter"]).as_atom().args[0]) == pks)]
+  if len(outer) != 1:
+    probs.append("no loop over the public keys of the guesses")
+  else:
+    ol = outer[0]
+    inner = [i for i in w.loop_info.values() if i is not ol and any(x is i["node"] for x in ast.walk(ol["node"]))]
+    n_in = 0
+    for il in inner:
+      for vis in il["visits"]:
+        if isinstance(vis["iter"], Seq) or vis["iter"] is None:
+          continue
+        ia = as_poly(vis["iter"]).as_atom()
+        if ia is None or ia.kind != "idx" or as_poly(ia.args[0]) != pks:
+          continue
+        n_in += 1
+        gp = as_poly(ia.args[1])                       # the guess's public key
+        ga = gp.as_atom()
+        oi = as_poly(ga.args[1]) if ga is not None and ga.kind == "idx" else None    # position of the guess
+        for kind, val, s_, since, v2 in il["body_paths"]:
+          if v2 is not vis:
+            continue
+          evs = [w.events[x] for x in s_.trace if x >= since]
+          st = [e for e in evs if e.kind == "store"]
+          elt = sym.mk("idx", as_poly(vis["iter"]), as_poly(vis["k"]))
+          if kind != "fall" or len(st) != 1 or as_poly(st[0].data["index"]) != elt or oi is None or as_poly(st[0].data["value"]) != sym.mk("idx", guesses, oi):
+            probs.append("not every signature index of the matched issuer is assigned the guess that produced its key")
+    if n_in == 0:
+      probs.append("the indices pks[guess_pk] of the matched issuer are not iterated")
+    n_hit = 0
+    for kind, val, s_, since, vis in ol["body_paths"]:
+      if kind in ("break", "return"):
+        probs.append("the loop over the guesses is left early")
+      newf = s_.facts[len(vis["head"].facts):]
+      hit = any(fc[0] == "cmp" and fc[1] == "In" and not isinstance(fc[3], Seq) and as_poly(fc[3]) == pks for fc in newf)
+      miss = any(fc[0] == "cmp" and fc[1] == "NotIn" and not isinstance(fc[3], Seq) and as_poly(fc[3]) == pks for fc in newf)
+      evs = [w.events[x] for x in s_.trace if x >= since]
+      if miss and any(e.kind == "store" for e in evs):
+        probs.append("a key is assigned for a guess that matches no issuer")
+      n_hit += 1 if hit else 0
+      if not hit and not miss:
+        probs.append("a guess is not looked up among the issuer keys")
+    if n_hit != n_in:
+      probs.append("a matching guess does not always reach the loop that assigns the issuer's signatures (%d matching paths, %d assignment loops)" % (n_hit, n_in))
+  ok = not probs
+  ctx.record(R, f.where, "every signature index of the verified issuer is assigned", ok, "guess_pk in pks -> issuer_dlogs[idx] = guesses[i] for every idx in pks[guess_pk]; no early exit" if ok else "; ".join(sorted(set(probs))))
   for cls in ("BiasedBaseCheck", "CheckCr50U2f"):
     b = body(repo, cls)
     calls = b.calls("repo:%s:_IssuerDLogs" % ES)
